@@ -28,11 +28,12 @@ def fns(file, fl, self_ty="", trait="", extra="", header=""):
 
 
 def fn(name, ret="", requires=(), ensures=(), mode="verify", closures=None, loops=None, subst=None,
-       attrs="", proof_prologue="", proof_epilogue="", iter_loops=None, label="", opaque_quotes=()):
+       attrs="", proof_prologue="", proof_epilogue="", iter_loops=None, label="", opaque_quotes=(), tail_from="", tail_call="", method_helpers=None):
     return {"name": name, "ret": ret, "requires": list(requires), "ensures": list(ensures),
             "mode": mode, "closures": closures or {}, "loops": loops or {}, "subst": subst or [],
             "attrs": attrs, "proof_prologue": proof_prologue, "proof_epilogue": proof_epilogue,
-            "iter_loops": iter_loops or {}, "label": label, "opaque_quotes": list(opaque_quotes)}
+            "iter_loops": iter_loops or {}, "label": label, "opaque_quotes": list(opaque_quotes),
+            "tail_from": tail_from, "tail_call": tail_call, "method_helpers": method_helpers or {}}
 
 
 def table(what, file, name):
@@ -70,7 +71,7 @@ PARSE_STREAM_ENSURES = [
 M_OF_COMB = "meaning_of_ctor(parse_table({c}).1)"
 
 
-MODULES = ["core", "optable", "entries", "gen", "guards", "names", "det", "builder", "parse", "sep", "steps", "top"]
+MODULES = ["core", "optable", "entries", "gen", "guards", "names", "det", "builder", "parse", "sep", "steps", "top", "step"]
 
 
 def common_units():
@@ -359,6 +360,8 @@ JOIN_STEPS = fn("join_steps", "r", attrs="#[verifier::loop_isolation(false)]\n#[
 
 
 GENERATE_STEP_ASSUMED = fn("generate_step", "r", mode="assumed",
+    # the preconditions it is verified under in module `step`
+    requires=["chains_wf(*self)", "result_vars@.len() == self.branch_count"],
     ensures=["r@ == gen_step_toks(*self, step_number, result_vars@, step_results_name.toks())"],
     subst=[{"find": "<TVar: ToTokens, TName: ToTokens>", "replace": "", "why": "monomorphised at the only instantiation", "sig": True},
            {"find": "&[TVar]", "replace": "&[Ident]", "why": "monomorphisation", "sig": True},
@@ -366,7 +369,7 @@ GENERATE_STEP_ASSUMED = fn("generate_step", "r", mode="assumed",
 GS_FI, GS_EV = "qj_JoinOutput_join_steps()[2]", "qj_JoinOutput_join_steps()[0]"
 GENERATE_STEPS = fn("generate_steps", "r", attrs="#[verifier::loop_isolation(false)]\n",
     requires=["result_vars@.len() == self.depths@.len()", "result_pats@.len() == self.depths@.len()", "self.branch_count == self.depths@.len()",
-              "self.max_step_count >= 1", "self.depths@.len() >= 1"],
+              "self.max_step_count >= 1", "self.depths@.len() >= 1", "chains_wf(*self)"],
     # C03 / C06 / C15: no unwrap of None (at least one step), and the steps are nested in order
     ensures=["r@ == steps_toks(*self, result_pats@, result_vars@, %s, %s, 0)" % (GS_FI, GS_EV)],
     subst=[{"find": "<TPat: ToTokens + Clone, TVar: ToTokens + Clone>", "replace": "", "why": "monomorphised at the only instantiation", "sig": True},
@@ -605,11 +608,11 @@ def gen_units():
                      "step_number: usize, result_vars: &[TVar], is_async: bool, is_spawn: bool) -> Option<(Option<TokenStream>, TokenStream)>",
               "spec": fn("generate_step_branch", "r", label="JoinOutput::generate_step_branch",
                          attrs="#[verifier::loop_isolation(false)]\n",
+                         proof_prologue="proof { reveal(started_as); }",
                          requires=["step_acts_ok(%s)" % ACTS, "branch_index < result_vars@.len()", "all_tokenizable(result_vars@)"],
                          ensures=["r is Some <==> %s.len() > 0" % ACTS,
                                   # C07 / C08 / C09 / C16: how the branch is started
-                                  "r is Some ==> exists|c: Seq<Tok>| #[trigger] is_toks(c) && (r->0).1@ == spawn_wrap(self.lazy_branches, is_spawn, is_async, "
-                                  "count_active(self.depths@, step_number as int) > 1, branch_index, c)"],
+                                  "r is Some ==> started_as((r->0).1@, self.lazy_branches, is_spawn, is_async, count_active(self.depths@, step_number as int) > 1, branch_index)"],
                          closures={
                              "0": {"id": "G", "params": ["Option<StepAcc<'a>>", "(usize, &&'a ExprGroup<ActionExpr>)"], "ret": "(r: Option<StepAcc<'a>>)",
                                    "requires": ["__Gp1.0 < %s.len()" % ACTS, "*__Gp1.1 == %s[__Gp1.0 as int]" % ACTS,
@@ -652,7 +655,7 @@ def steps_units():
     for un in g:
         if un.get("kind") == "type" and un.get("name") in ("ActionExprPos", "StepAcc", "JoinOutput"):
             u.append(un)
-        elif un.get("kind") == "raw" and un.get("label") in ("specs_gen",):
+        elif un.get("kind") == "raw" and un.get("label") in ("specs_gen", "specs_stack"):
             u.append(un)
         elif un.get("kind") == "fns" and un.get("self_ty") == "JoinOutput" and any(f["name"] in keep_fns for f in un["fns"]):
             un2 = dict(un)
@@ -684,6 +687,87 @@ def steps_units():
                              "|(a, b)|": {"id": "AB", "params": ["(TokenStream, TokenStream)"], "ret": "(r: (Option<TokenStream>, Option<TokenStream>))",
                                           "ensures": ["r.0 == Some(__ABp0.0)", "r.1 == Some(__ABp0.1)"]},
                          })})
+    return u
+
+
+EG_STEP = "&'x Vec<&'a ExprGroup<ActionExpr>>"
+EG_CHAIN = "&'x Vec<Vec<&'a ExprGroup<ActionExpr>>>"
+BR_RES = "Option<(Option<TokenStream>, TokenStream)>"
+STARTED = "started_as((r->0).1@, self.lazy_branches, is_spawn, is_async, count_active(self.depths@, step_number as int) > 1, %s)"
+STEP_TAIL_OF = ("step_tail_spec(self.config.is_async, seq_toks({ds}), step_results_name.toks(), "
+                "joiner_spec(count_active(self.depths@, step_number as int), self.custom_joiner, self.config.is_async, self.config.is_try, opt_path(self.futures_crate_path)), "
+                "seq_toks_sep({ss}, ','), seq_toks({ss}), "
+                "tb_spec(self.config.is_async, self.config.is_spawn, self.depths@, step_number as int), "
+                "sj_spec(self.config.is_async, self.config.is_spawn, self.depths@, step_number as int, step_results_name.toks()))")
+# the WHOLE of generate_step: R13 (iter/map/enumerate/filter_map/unzip), R15 call-out for the per-branch closure (verified from the
+# same bytes as `generate_step_branch` in module gen), the tail inline
+GENERATE_STEP = fn("generate_step", "r", label="JoinOutput::generate_step", 
+    requires=["chains_wf(*self)", "result_vars@.len() == self.branch_count"],
+    # C03 / C04 / C09: ONE stream per branch active in the step, in branch order, each started for ITS OWN branch index,
+    # all of them handed to ONE joiner invocation
+    ensures=["exists|ds: Seq<Option<TokenStream>>, ss: Seq<TokenStream>| #[trigger] step_streams_ok(ds, ss, *self, step_number as int, self.config.is_async, self.config.is_spawn, self.branch_count as int) "
+             "&& r@ == " + STEP_TAIL_OF.format(ds="ds", ss="ss")],
+    subst=[{"find": "<TVar: ToTokens, TName: ToTokens>", "replace": "<'x>", "why": "monomorphised at the only instantiation; the lifetime of `&self` gets a name so that closure contracts can mention it", "sig": True},
+           {"find": "&self,", "replace": "&'x self,", "why": "named lifetime (see above)", "sig": True},
+           {"find": "&[TVar]", "replace": "&[Ident]", "why": "monomorphisation", "sig": True},
+           {"find": "&TName", "replace": "&Ident", "why": "monomorphisation", "sig": True},
+           ],
+    # R15 call-out: the statements from `let joiner =` on are the lifted `generate_step_tail` (verified in module steps)
+    method_helpers={"get": "vec_get"},   # slice::get with a usize index written out (prelude helper, verified)
+    tail_from="let joiner = ", tail_call="self.generate_step_tail(step_number, step_results_name, def_streams, step_streams, is_async, is_try)",
+    closures={
+        "|chain|": {"params": [EG_CHAIN], "ret": "(r: Option<%s>)" % EG_STEP,
+                    "ensures": ["r == (if step_number < chain@.len() { Some(&chain@[step_number as int]) } else { None::<%s> })" % EG_STEP]},
+        "|(branch_index, chain_step_actions)|": {"id": "B", "params": ["(usize, Option<%s>)" % EG_STEP], "ret": "(r: %s)" % BR_RES,
+                    "requires": ["__Bp0.0 < result_vars@.len()", "__Bp0.1 is Some ==> acts_ok_o((__Bp0.1->0)@)"],
+                    "ensures": ["match __Bp0.1 { None => r is None, Some(a) => (r is Some <==> a@.len() > 0) && (r is Some ==> %s) }" % (STARTED % "__Bp0.0")]},
+        "|chain_step_actions|": {"params": [EG_STEP], "ret": "(r: %s)" % BR_RES,
+                    "requires": ["acts_ok_o(chain_step_actions@)", "branch_index < result_vars@.len()"],
+                    "prologue": "proof { reveal(acts_ok_o); }",
+                    "ensures": ["r is Some <==> chain_step_actions@.len() > 0", "r is Some ==> %s" % (STARTED % "branch_index")],
+                    "call_out": "self.generate_step_branch(chain_step_actions, branch_index, step_number, result_vars, is_async, is_spawn)"},
+    },
+    iter_loops={"0": {"acc_ty": "Option<TokenStream>; TokenStream", "invariant": [
+        "__i <= __it.len()", "__it@ == self.chains@", "chains_wf(*self)", "result_vars@.len() == self.branch_count",
+        "is_async == self.config.is_async", "is_spawn == self.config.is_spawn",
+        "step_streams_ok(__a@, __b@, *self, step_number as int, is_async, is_spawn, __i as int)",
+        "forall|c: %s| #[trigger] __f.requires((c,))" % EG_CHAIN,
+        "forall|c: %s, r: Option<%s>| #[trigger] __f.ensures((c,), r) ==> r == (if step_number < c@.len() { Some(&c@[step_number as int]) } else { None::<%s> })" % (EG_CHAIN, EG_STEP, EG_STEP),
+        "forall|p: (usize, Option<%s>)| (p.0 < result_vars@.len() && (p.1 is Some ==> acts_ok_o((p.1->0)@))) ==> #[trigger] __g.requires((p,))" % EG_STEP,
+        "forall|p: (usize, Option<%s>), r: %s| #[trigger] __g.ensures((p,), r) ==> (match p.1 { None => r is None, Some(a) => (r is Some <==> a@.len() > 0) && (r is Some ==> %s) })" % (EG_STEP, BR_RES, STARTED % "p.0"),
+    ],
+        "body_prologue": "proof { lemma_apos_step(self.depths@, step_number as int, __i as int); }",
+        "after": "proof { lemma_apos_ends(self.depths@, step_number as int); }"}},
+    proof_prologue="proof { lemma_apos_ends(self.depths@, step_number as int); }")
+
+
+def step_units():
+    """join_output.rs::generate_step as a whole (C03 / C04 / C09 / C16): the streams of a step and what is done with them"""
+    g = gen_units()
+    u = []
+    keep_fns = {"active_step_branch_count"}
+    for un in g:
+        if un.get("kind") == "type" and un.get("name") in ("ActionExprPos", "StepAcc", "JoinOutput"):
+            u.append(un)
+        elif un.get("kind") == "raw" and un.get("label") in ("specs_gen", "specs_stack"):
+            u.append(un)
+        elif un.get("kind") == "fns" and un.get("self_ty") == "JoinOutput" and any(f["name"] in keep_fns for f in un["fns"]):
+            un2 = dict(un)
+            un2["fns"] = [f for f in un["fns"] if f["name"] in keep_fns]
+            u += _assume([un2])
+        elif un.get("kind") == "lifted" and un["spec"]["name"] == "generate_step_branch":
+            # the twin of the call-out: contract only here (verified in module gen from the same bytes)
+            un2 = dict(un)
+            un2["spec"] = dict(un["spec"], mode="assumed", closures={}, loops={}, iter_loops={}, proof_prologue="", proof_epilogue="")
+            u.append(un2)
+    u.append(table("quote_idents", F_JO, "qj+@Err"))
+    u.append(raw("specs_join_steps", _read("specs_join_steps.rs")))
+    for un in steps_units():
+        if un.get("kind") == "lifted" and un["spec"]["name"] == "generate_step_tail":
+            un2 = dict(un)
+            un2["spec"] = dict(un["spec"], mode="assumed", closures={}, loops={}, iter_loops={}, subst=[], proof_prologue="", proof_epilogue="")
+            u.append(un2)
+    u.append(fns(F_JO, [GENERATE_STEP], self_ty="JoinOutput"))
     return u
 
 
@@ -719,7 +803,7 @@ def top_units():
     for un in g:
         if un.get("kind") == "type" and un.get("name") in ("ActionExprPos", "StepAcc", "JoinOutput"):
             u.append(un)
-        elif un.get("kind") == "raw" and un.get("label") in ("specs_gen",):
+        elif un.get("kind") == "raw" and un.get("label") in ("specs_gen", "specs_stack"):
             u.append(un)
         elif un.get("kind") == "fns" and un.get("self_ty") == "JoinOutput" and any(f["name"] in keep_fns for f in un["fns"]):
             un2 = dict(un)
@@ -947,6 +1031,9 @@ def build_plan(repo, module):
     elif module == "top":
         u += _assume(core_units())
         u += top_units()
+    elif module == "step":
+        u += _assume(core_units())
+        u += step_units()
     elif module == "guards":
         u += guards_units()
     else:
@@ -954,7 +1041,7 @@ def build_plan(repo, module):
     u.append(raw("footer", "} // verus!\nfn main() {}\n"))
     if module == "builder":
         optargs = {"new": [0], "set_id": [0]}
-    if module in ("gen", "steps", "top"):
+    if module in ("gen", "steps", "top", "step"):
         optargs = {"generate_results_transposer": [1], "extract_results_tuple": [2, 3], "generate_def_and_step_streams": [0, 2], "wrap_last_step_stream": [1],
                    "process_step_action_expr": [0]}
     return {"repo": repo, "units": u, "optargs": optargs}
@@ -968,23 +1055,25 @@ OBLIGATIONS = {
             # operator identity survives hoisting a block operand / splicing a wrapper closure
             ("core", "ProcessExpr::replace_inner_exprs"), ("core", "ErrExpr::replace_inner_exprs"),
             ("core", "InitialExpr::replace_inner_exprs"), ("core", "ActionExpr::replace_inner_exprs"),
-            ("gen", "JoinOutput::expand_process_expr"), ("gen", "JoinOutput::generate_def_and_step_streams")],
+            ("gen", "JoinOutput::expand_process_expr"), ("gen", "JoinOutput::generate_def_and_step_streams"),
+            # an initial value that binds looser than `.method()` is parenthesised (fix 0941b1e)
+            ("gen", "is_lower_precedence_than_method_call")],
     "C02": [("gen", "lemma_split_balance"), ("gen", "lemma_accepted_chain_never_underflows"), ("gen", "JoinOutput::split_branch_steps"), ("gen", "JoinOutput::generate_step_branch"), ("parse", "ActionGroup::parse_stream"), ("parse", "parse_until_suffix"), ("parse", "lemma_wrapper_frame"), ("builder", "ActionExprChainBuilder::build_from_parse_stream"), ("gen", "JoinOutput::wrap_last_step_stream"), ("gen", "JoinOutput::process_step_action_expr"),
             ("gen", "lemma_step_toks1"), ("core", "Combinator::can_be_wrapper"), ("core", "ActionGroup::to_wrapper_action_expr"),
             ("core", "ProcessExpr::replace_inner_exprs"), ("core", "ErrExpr::replace_inner_exprs"),
             ("core", "InitialExpr::replace_inner_exprs"), ("core", "ActionExpr::replace_inner_exprs"),
             ("core", "ExprGroup::replace_inner_exprs")],
     # the `~` mark (Deferred) reaches the generator unchanged: suffix of parse_until, parse_stream, the wrapper placeholder
-    "C03": [("steps", "JoinOutput::generate_steps"), ("gen", "JoinOutput::split_branch_steps"), ("gen", "vec_last_push"), ("parse", "parse_until_suffix"), ("parse", "ActionGroup::parse_stream"), ("core", "ActionGroup::to_wrapper_action_expr"),
+    "C03": [("step", "JoinOutput::generate_step"), ("step", "lemma_apos_step"), ("step", "lemma_apos_ends"), ("gen", "JoinOutput::generate_step_branch"), ("steps", "JoinOutput::generate_steps"), ("gen", "JoinOutput::split_branch_steps"), ("gen", "vec_last_push"), ("parse", "parse_until_suffix"), ("parse", "ActionGroup::parse_stream"), ("core", "ActionGroup::to_wrapper_action_expr"),
             ("core", "ActionGroup::new"), ("core", "ExprGroup::application_type"), ("core", "ExprGroup::new")],
     "C06": [("steps", "JoinOutput::generate_steps"), ("steps", "JoinOutput::join_steps"), ("steps", "lemma_join_comma"), ("steps", "lemma_count_take_step"), ("gen", "JoinOutput::split_branch_steps"), ("parse", "parse_until_suffix"), ("parse", "ActionGroup::parse_stream"), ("core", "ActionGroup::to_wrapper_action_expr"),
             ("core", "ActionGroup::new"), ("core", "ExprGroup::application_type"), ("core", "ExprGroup::new")],
-    "C04": [("steps", "JoinOutput::join_steps"), ("steps", "lemma_join_comma"), ("steps", "lemma_count_take_step"), ("gen", "JoinOutput::generate_results_transposer"), ("gen", "JoinOutput::active_step_branch_count"), ("gen", "JoinOutput::extract_results_tuple"), ("gen", "lemma_refs_toks"), ("gen", "lemma_filter_tokenizable"),
+    "C04": [("step", "JoinOutput::generate_step"), ("step", "lemma_apos_step"), ("step", "lemma_apos_ends"), ("gen", "JoinOutput::generate_step_branch"), ("steps", "JoinOutput::join_steps"), ("steps", "lemma_join_comma"), ("steps", "lemma_count_take_step"), ("gen", "JoinOutput::generate_results_transposer"), ("gen", "JoinOutput::active_step_branch_count"), ("gen", "JoinOutput::extract_results_tuple"), ("gen", "lemma_refs_toks"), ("gen", "lemma_filter_tokenizable"),
             ("gen", "JoinOutput::is_branch_active_in_step"), ("gen", "JoinOutput::generate_indexed_step_results_name"),
             ("gen", "JoinOutput::branch_result_name"), ("gen", "JoinOutput::branch_result_pat")],
     "C07": [("steps", "JoinOutput::generate_thread_builders_and_spawn_joiners"), ("steps", "JoinOutput::generate_step_tail"), ("steps", "lemma_concat_all"), ("entries", "lemma_entry_table"), ("top", "JoinOutput::to_tokens"), ("gen", "JoinOutput::generate_step_branch")],
     "C13": [("top", "JoinOutput::to_tokens"), ("guards", "Handler::is_map"), ("guards", "Handler::is_then"), ("guards", "Handler::is_and_then"), ("guards", "new_guards"), ("gen", "JoinOutput::generate_handle"), ("gen", "JoinOutput::extract_results_tuple"), ("gen", "JoinOutput::generate_results_transposer")],
-    "C09": [("steps", "JoinOutput::generate_step_tail"), ("top", "JoinOutput::to_tokens"), ("gen", "JoinOutput::generate_step_branch")],
+    "C09": [("gen", "JoinOutput::expand_process_expr"), ("steps", "JoinOutput::generate_step_tail"), ("top", "JoinOutput::to_tokens"), ("step", "JoinOutput::generate_step"), ("step", "lemma_apos_step"), ("step", "lemma_apos_ends"), ("gen", "JoinOutput::generate_step_branch")],
     # the steps of every kind sit in a plain block of the scope the macro is called in (no closure / thread / box of
     # the macro's own between the caller's locals and the branch expressions)
     "C19": [("top", "JoinOutput::to_tokens")],
